@@ -61,6 +61,8 @@ PROPS["C04"] = dict(pkg="chain", level="exploration", stages=[
     direct("preoak", "TestC04PreOak", quick=dict(shards=2, timeout=900), thorough=dict(shards=3, timeout=3600)),
     direct("long-concurrent", "TestC04LongConcurrent", quick=dict(shards=1, timeout=900), thorough=dict(shards=1, timeout=3600)),
     direct("long-concurrent-race", "TestC04LongConcurrent", race=True, tiers=["thorough"]),
+    direct("notify", "TestC04Notify"),
+    direct("notify-race", "TestC04Notify", race=True, tiers=["thorough"]),
     rapid("rapid", "TestC04", dict(shards=16, checks=200), dict(shards=16, checks=4000, timeout=7000)),
     rapid("concurrent", "TestC04Concurrent", dict(shards=8, checks=60), dict(shards=16, checks=400, timeout=7000)),
     rapid("concurrent-race", "TestC04Concurrent", dict(shards=8, checks=40), dict(shards=16, checks=150, timeout=7000), race=True, tiers=["thorough"]),
